@@ -1,4 +1,5 @@
 import ITree.Lemmas.MapWF
+import ITree.Lemmas.KHistory
 /-!
 # C02 — the trees stay valid red-black search trees (logarithmic height)
 
@@ -46,6 +47,23 @@ theorem C02_delete_index_bal {ε : Type} (k : Ctx ε) {c} {l r : T ε} {s e m}
 /-- the insert repair keeps the invariant -/
 theorem C02_link_new_bal (k : Ctx (Ent V)) (slot : Nat) (e : Ent V) {m : Nat}
     (h : Bal (plug k .leaf) m) : ∃ m', Bal (linkNew k slot e) m' := linkNew_bal k slot e h
+
+/-- the expiring-key tree: every state reachable by an in-contract history of inserts, the four
+queries (each of which may physically remove expired entries it meets), exports and clears is a
+red-black search tree, and every operation of such a history completes without a fault -/
+theorem C02_key_reachable {c : Nat} {st : St V} {S : List (Ent V)} {last : Option Int}
+    (h : KReach c st S last) :
+    Ordered st.tree ∧ (∃ n, Bal st.tree n) ∧ st.tree.height ≤ 2 * Nat.log2 (st.tree.size + 1) + 1 := by
+  have hw := h.inv.1
+  obtain ⟨n, hn⟩ := hw.bal
+  exact ⟨hw.ordered, ⟨n, hn⟩, C02_height_bound hn⟩
+
+theorem C02_key_step_total {c : Nat} {st : St V} {S : List (Ent V)} {last : Option Int}
+    (h : KReach c st S last) (op : KOp V) (hc : KContract S last op) :
+    ∃ st' r vals tr, st.kstep op = some (st', r, vals, tr) ∧ WF st' := by
+  obtain ⟨hw, hr⟩ := h.inv
+  obtain ⟨st', r, vals, tr, h1, h2, _⟩ := St.kstep_refines st S last op hw hr hc
+  exact ⟨st', r, vals, tr, h1, h2⟩
 
 /-! non-vacuity: a concrete three-entry state is reachable and satisfies the hypotheses -/
 example : ∃ st : St Nat, Reach 8 st ∧ st.tree.size = 3 := by
